@@ -171,6 +171,9 @@ func RoutePatternMatch(path, pattern string, cfg ...Config) bool {
 	parser.reset()
 	parser.parseRoute(string(patternPretty))
 	defer routerParserPool.Put(parser)
+	if n := len(parser.segs); config.StrictRouting && n > 0 && !parser.segs[n-1].IsParam {
+		parser.segs[n-1].HasOptionalSlash = false
+	}
 
 	if string(patternPretty) == "/" && path == "/" {
 		return true
